@@ -262,6 +262,32 @@ def validateBase (d : Dict) : Except Err Dict := do
   if !(cons.all (okName constraintNames)) then .error .value else
   .ok d
 
+/-- Python's `a > b` on two lists of numbers (lexicographic; a proper prefix is smaller) -/
+def lexGt : List Rat → List Rat → Bool
+  | [], _ => false
+  | _ :: _, [] => true
+  | x :: xs, y :: ys => if x == y then lexGt xs ys else decide (y < x)
+
+def numsOf : List Sc → Option (List Rat)
+  | [] => some []
+  | s :: r => match s.num?, numsOf r with
+    | some x, some xs => some (x :: xs)
+    | _, _ => Option.none
+
+/-- `self.n_splines > self.spline_order` as Python evaluates it: numbers are compared as numbers, two lists
+lexicographically (un-validated states written by `set_params`), a list against a number is a `TypeError` -/
+def splineSizeGt (ns so : Val) : Except Err Bool :=
+  match ns, so with
+  | .sc a, .sc b =>
+    match a.num?, b.num? with
+    | some x, some y => .ok (decide (y < x))
+    | _, _ => .error .type
+  | .list la, .list lb =>
+    match numsOf la, numsOf lb with
+    | some xs, some ys => .ok (lexGt xs ys)
+    | _, _ => .error .type
+  | _, _ => .error .type
+
 /-- the extra checks of `SplineTerm._validate_arguments` -/
 def validateSpline (d : Dict) : Except Err Dict := do
   let basis ← attr d "basis"
@@ -270,17 +296,12 @@ def validateSpline (d : Dict) : Except Err Dict := do
   checkParam ns
   let so ← attr d "spline_order"
   checkParam so
-  match ns, so with
-  | .sc a, .sc b =>
-    match a.num?, b.num? with
-    | some x, some y =>
-      if !(y < x) then .error .value else
-      let by_ ← attr d "by"
-      if by_ == vnone then .ok d else do
-        checkParam by_
-        .ok d
-    | _, _ => .error .type
-  | _, _ => .error .type
+  let gt ← splineSizeGt ns so
+  if !gt then .error .value else
+  let by_ ← attr d "by"
+  if by_ == vnone then .ok d else do
+    checkParam by_
+    .ok d
 
 /-- the extra check of `FactorTerm._validate_arguments` -/
 def validateFactor (d : Dict) : Except Err Dict := do
